@@ -1,6 +1,7 @@
 import Hertz.Proofs.Http1
 import Hertz.Proofs.PrefixStable
 import Hertz.Proofs.PrefixStableResp
+import Hertz.Proofs.ScanEdit
 /-!
 # C02 — message parsing does not depend on how bytes are split into reads
 
@@ -280,5 +281,418 @@ example : RespRead.readResponse false 0 .stall exResp =
     RespRead.readHeaders false .stall exResp = .ok ({ status := 200, cl := 2, clBytes := [50] }, [104,105]) ∧
     RespRead.Framed { status := 200, cl := 2, clBytes := [50] } :=
   ⟨by decide +kernel, by decide +kernel, Or.inr (by decide)⟩
+
+/-! ## X02 — the in-place edits of the header scanner (`Model/Http1/ScanEdit`, `Proofs/ScanEdit`)
+
+`ScanEdit.scanNextE : buffer → (answer, buffer')` is `HeaderScanner.Next` with the writes it performs (key canonicalised
+where it lies; an obs-folded value compacted, right aligned in its region, blanks in front); `scanBlock` is the loop
+`for s.Next() {}`, `retryScanE` the scheme of `resp.ReadHeader` / `ext.ReadTrailer`: "scan buf₀; on need-more scan
+(edit buf₀ ++ more)".  The correspondence check compares `buffer'` with the real buffer bytes (ops `scanblk`, `hdrbuf`).
+
+Proved for all buffers: the answer component is the pure scanner the theorems above are about (`edit_answer_is_scan`,
+`edit_block_reading_is_scan`); the edits are confined to the consumed bytes — length kept, everything behind the
+consumed bytes and every byte appended later untouched (`edit_step_local`, `edit_prefix_local`,
+`edit_appended_untouched`: the statement behind the former defect F2 "body corrupted by header compaction").
+
+**False as first stated** — `rescan_after_edit_eq_whole_fails_at`: "for every segmentation the retry scheme WITH the
+edits returns the reading of one scan of the whole block".  Witness `X: a \r\n \r\n` ‖ ` c\r\n\r\n`: the value is
+`a   c` (three blanks) in one scan and `a  c` after the cut.  A value whose obs-fold look-ahead ran out of buffered
+bytes is compacted all the same; the compaction drops the blanks at the END of the value so far, and when the value
+goes on they are missing.  This is a defect of hertz (reproduced on the real client: response head
+`HTTP/1.1 200 OK\r\nX: a \r\n \r\n c\r\nContent-Length: 2\r\n\r\nhi`, reads ending at offsets 27..30), found while
+stating this theorem; known-finding class `obsfold-compacted-before-complete`, patch
+`patches/obsfold-compact-only-complete-values.diff`.  The three former witnesses are regression theorems
+(`rescan_note_cut_after_line2`, `rescan_fold_blank_only`, `fold_then_body_untouched`).
+
+Proved for all buffers as well: `edit_idempotent` / `edit_preserves_reading` (scanning the edited buffer again gives
+the same fields, stop and consumed count and leaves the buffer alone; one call: `edit_step_idempotent`; the key part:
+`key_edit_idempotent`; the two passes of `ext.parseTrailer`: `trailer_second_pass_writes_nothing`).
+
+And the partial statement, for all buffers and all segmentations: `rescan_after_edit_eq_whole_partial` (two reads) and
+`rescan_after_edit_eq_whole_segments` (any number of reads): if no stage of the retry compacted a value whose look-ahead
+ended at the end of the buffer (`ScanEdit.anyDryFold` / `retryClean`), the retry scheme WITH the edits reads what one scan
+of the whole reads.  The excluded region is exactly the known-finding class (the driver names a failing case known only
+if `anyDryFold` holds for it).
+
+The header OBJECTS: `resp.parseHeaders` and the loop of `ext.parseTrailer` are folds over the block reading, so the same
+holds for them: `resp_headers_edit_preserved`, `resp_headers_rescan_partial`, `trailer_edit_preserved`,
+`trailer_rescan_partial`.
+
+For the whole response head (`resp.parse`, first line included): `resp_parse_edit_answer`, `resp_head_rescan_partial`
+(`parseFirstLine` looks only at the bytes it consumes, which no edit touches: `respFirstLine_local`), and for the retry
+loop of `resp.ReadHeader` over any number of reads: `client_read_with_edits_segmentation_invariant`.
+
+And for `ext.parseTrailer` on the whole peeked buffer (optional `0\r\n` in front, two passes): `trailer_parse_rescan_partial`.
+
+TODO-OPEN (X02): the request side needs no rescan statement (`needMore_after_precheck_never_ok`: nothing is scanned, hence
+written, before the completeness pre-check passed — `reqParseE`); a multi-read version of the trailer theorem (like
+`client_read_with_edits_segmentation_invariant`) is not stated; `respParseE` / `trailerParseE` / `reqParseE` are
+compared with the real readers (outcome and connection buffer) by `hdrbuf`;
+`RescanAfterEditEqWhole` without hypothesis becomes provable once the proposed patch is in (then `anyDryFold` is
+constantly false).
+-/
+section X02
+open Hertz.H1.ScanEdit
+
+/-- The answer of the editing scanner is the answer of the pure scanner `scanNext` — the function all theorems
+above (prefix stability, retry = whole) are about. -/
+theorem edit_answer_is_scan (dn : Bool) (B : Bytes) : (scanNextE dn B).1 = scanNext dn B := scanNextE_fst dn B
+
+theorem edit_block_reading_is_scan (dn : Bool) (B : Bytes) :
+    (scanBlock dn B).reading = readBlock dn (B.length + 1) B := scanBlockE_reading dn _ B
+
+/-- **One call of `Next`.** Either it hands out no field and has written nothing, or it hands out a field, consumed
+`m` bytes, and the buffer afterwards is `m` rewritten bytes followed by the unconsumed rest exactly as it was. -/
+theorem edit_step_local (dn : Bool) (B : Bytes) :
+    (scanNextE dn B = (scanNext dn B, B) ∧ ∀ k v r m, scanNext dn B ≠ .kv k v r m) ∨
+    (∃ k v rest m pre, scanNextE dn B = (.kv k v rest m, pre ++ rest) ∧ scanNext dn B = .kv k v rest m ∧
+      pre.length = m ∧ B.drop m = rest ∧ m + rest.length = B.length) := scanNextE_step dn B
+
+/-- **The edits of a scan are local**: the buffer keeps its length, and behind the bytes the scan consumed it is
+unchanged — whatever the buffer holds there (body, next message) and however the scan stopped. -/
+theorem edit_prefix_local (dn : Bool) (B : Bytes) :
+    (scanBlock dn B).buf.length = B.length ∧ (scanBlock dn B).consumed ≤ B.length ∧
+      (scanBlock dn B).buf.drop (scanBlock dn B).consumed = B.drop (scanBlock dn B).consumed :=
+  scanBlockE_local dn _ B
+
+/-- what the retry loop hands to the parser after a need-more — the edited buffer followed by the bytes read since —
+agrees with the stream behind the consumed bytes: the appended bytes are untouched -/
+theorem edit_appended_untouched (dn : Bool) (B more : Bytes) :
+    ((scanBlock dn B).buf ++ more).drop (scanBlock dn B).consumed = (B ++ more).drop (scanBlock dn B).consumed := by
+  obtain ⟨h1, h2, h3⟩ := scanBlockE_local dn (B.length + 1) B
+  unfold scanBlock
+  rw [List.drop_append_of_le_length (by omega), List.drop_append_of_le_length h2, h3]
+
+/-- **`edit_idempotent` and `edit_preserves_reading` in one**: scanning the buffer a scan has left behind hands out
+the same fields, stops the same way after the same number of bytes, and leaves the buffer as it is — for every
+buffer, whatever it holds and however the first scan stopped.  (This is also what `ext.parseTrailer` relies on: its
+second pass over the section reads what the first, checking pass read.) -/
+theorem edit_idempotent (dn : Bool) (B : Bytes) : scanBlock dn (scanBlock dn B).buf = scanBlock dn B := by
+  unfold scanBlock
+  rw [(scanBlockE_local dn (B.length + 1) B).1]
+  exact scanBlockE_idem dn _ B
+
+theorem edit_preserves_reading (dn : Bool) (B : Bytes) :
+    (scanBlock dn (editBlock dn B)).reading = (scanBlock dn B).reading ∧ editBlock dn (editBlock dn B) = editBlock dn B := by
+  unfold editBlock; rw [edit_idempotent]; exact ⟨rfl, rfl⟩
+
+/-- one call of `Next` on what a call of `Next` has left behind: same answer, nothing new written -/
+theorem edit_step_idempotent (dn : Bool) (B : Bytes) : scanNextE dn (scanNextE dn B).2 = scanNextE dn B := by
+  rcases scanNextE_step2 dn B with ⟨hs, _⟩ | ⟨k, v, rest, m, pre, hs, _, h0, _, hI⟩
+  · rw [hs]; exact hs
+  · rw [hs]; exact hI rest h0
+
+/-- `utils.NormalizeHeaderKey` on its own output changes nothing (the key part of the edit) -/
+theorem key_edit_idempotent (dn : Bool) (k : Bytes) : normalizeKey dn (normalizeKey dn k) = normalizeKey dn k :=
+  normalizeKey_idem dn k
+
+/-- the trailer reader's two passes: the second pass writes nothing the first has not written -/
+theorem trailer_second_pass_writes_nothing (dn : Bool) (B : Bytes) : editTrailer dn B = editBlock dn B := by
+  unfold editTrailer editBlock
+  simp only []
+  split
+  · rw [edit_idempotent]
+  · rfl
+
+set_option maxRecDepth 100000 in
+/-- non-vacuity: a block whose scan rewrites key and value; the second scan reads the same and leaves the bytes -/
+example : (scanBlock false [88,58,32,97,13,10,32,98,13,10,13,10,97,98,99,100,101,102,103,104]).buf ≠ [88,58,32,97,13,10,32,98,13,10,13,10,97,98,99,100,101,102,103,104] ∧
+    scanBlock false (scanBlock false [88,58,32,97,13,10,32,98,13,10,13,10,97,98,99,100,101,102,103,104]).buf =
+      scanBlock false [88,58,32,97,13,10,32,98,13,10,13,10,97,98,99,100,101,102,103,104] := by decide +kernel
+
+/-- `X-Note: first\r\n second\r\n` -/
+def exNoteA : Bytes := [88,45,78,111,116,101,58,32,102,105,114,115,116,13,10,32,115,101,99,111,110,100,13,10]
+/-- `\tthird\r\n\r\nabcdefgh` -/
+def exNoteB : Bytes := [9,116,104,105,114,100,13,10,13,10,97,98,99,100,101,102,103,104]
+/-- `X-Fold: a\r\n \r\r\n` -/
+def exFoldA : Bytes := [88,45,70,111,108,100,58,32,97,13,10,32,13,13,10]
+/-- `X: a\r\n b\r\n\r\nabcdefgh` -/
+def exFoldBody : Bytes := [88,58,32,97,13,10,32,98,13,10,13,10,97,98,99,100,101,102,103,104]
+/-- `X: a \r\n \r\n` -/
+def exDryA : Bytes := [88,58,32,97,32,13,10,32,13,10]
+/-- ` c\r\n\r\n` -/
+def exDryB : Bytes := [32,99,13,10,13,10]
+
+set_option maxRecDepth 100000 in
+/-- non-vacuity of `edit_prefix_local` / `edit_step_local`: a scan that rewrites the key and compacts a folded value,
+with a body behind the block -/
+example : scanBlock false exFoldBody =
+    { fields := [([88], [97,32,98])], stop := .fin 12, consumed := 10,
+      buf := [88,58,32,32,32,97,32,98,13,10,13,10,97,98,99,100,101,102,103,104] } := by decide +kernel
+set_option maxRecDepth 100000 in
+example : (scanNextE false [120,45,97,58,32,98,13,10,13,10]).2 = [88,45,65,58,32,98,13,10,13,10] := by decide +kernel
+
+set_option maxRecDepth 100000 in
+/-- regression, former witness of 29d098b: `X-Note: first\r\n second\r\n\tthird` cut after line 2 — the first scan
+compacts `first second`, the rescan of the edited buffer plus the rest reads what one scan of the whole reads -/
+theorem rescan_note_cut_after_line2 :
+    (retryScanE false exNoteA [exNoteB]).reading = (scanBlock false (exNoteA ++ exNoteB)).reading ∧
+    (scanBlock false exNoteA).stop = .needMore ∧ (scanBlock false exNoteA).buf ≠ exNoteA := by decide +kernel
+
+set_option maxRecDepth 100000 in
+/-- regression, former witness of 4b3fd87: `X-Fold: a\r\n \r\r\n` (continuation line of blanks only), then the blank line -/
+theorem rescan_fold_blank_only :
+    (retryScanE false exFoldA [[13,10]]).reading = (scanBlock false (exFoldA ++ [13,10])).reading ∧
+    (retryScanE false exFoldA [[13,10]]).fields = [([88,45,70,111,108,100], [97])] := by decide +kernel
+
+set_option maxRecDepth 100000 in
+/-- regression, former witness of 28ce34e (F2): a folded header, the buffer ending inside the body — the body bytes
+are where they were -/
+theorem fold_then_body_untouched (k : Nat) (hk : 12 ≤ k) :
+    ((scanBlock false (exFoldBody.take k)).buf).drop 12 = (exFoldBody.take k).drop 12 := by
+  have h20 : ∀ j, j ≤ 20 → ((scanBlock false (exFoldBody.take j)).buf).drop 12 = (exFoldBody.take j).drop 12 ∨ j < 12 := by
+    decide +kernel
+  by_cases h : k ≤ 20
+  · rcases h20 k h with h' | h'
+    · exact h'
+    · omega
+  · have : exFoldBody.take k = exFoldBody.take 20 := by
+      rw [List.take_of_length_le (by decide : exFoldBody.length ≤ 20), List.take_of_length_le (by simp [exFoldBody]; omega)]
+    rw [this]
+    rcases h20 20 (by omega) with h' | h'
+    · exact h'
+    · omega
+
+/-- the full statement: for every segmentation the retry scheme WITH the edits reads what one scan of the whole reads -/
+def RescanAfterEditEqWhole : Prop :=
+  ∀ (dn : Bool) (buf : Bytes) (segs : List Bytes),
+    (retryScanE dn buf segs).reading = (scanBlock dn (buf ++ segs.flatten)).reading
+
+set_option maxRecDepth 100000 in
+/-- FALSE of the code as it stands: `X: a \r\n \r\n` ‖ ` c\r\n\r\n` reads `a  c` after the cut and `a   c` whole
+(known finding `obsfold-compacted-before-complete`, replayed on the real scanner and on the real client). -/
+theorem rescan_after_edit_eq_whole_fails_at : ¬ RescanAfterEditEqWhole := by
+  intro h
+  have h1 := h false exDryA [exDryB]
+  revert h1
+  decide +kernel
+
+set_option maxRecDepth 100000 in
+/-- the witness is inside the class the driver names: the first scan compacted a value whose look-ahead had run dry -/
+example : anyDryFold false (exDryA.length + 1) exDryA = true ∧ (scanBlock false exDryA).stop = .needMore ∧
+    (retryScanE false exDryA [exDryB]).fields = [([88], [97,32,32,99])] ∧
+    (scanBlock false (exDryA ++ exDryB)).fields = [([88], [97,32,32,32,99])] := by decide +kernel
+
+/-- **Partial: rescan after edit = whole, two reads.**  If the scan of what was buffered did not compact a value
+whose obs-fold look-ahead ended at the end of the buffer, then scanning the EDITED buffer followed by the bytes read
+since gives the reading of one scan of the whole — for every buffer, every continuation, normalising on or off.
+The excluded region is exactly the known-finding class `obsfold-compacted-before-complete`. -/
+theorem rescan_after_edit_eq_whole_partial (dn : Bool) (buf more : Bytes)
+    (h : anyDryFold dn (buf.length + 1) buf = false) :
+    (scanBlock dn ((scanBlock dn buf).buf ++ more)).reading = (scanBlock dn (buf ++ more)).reading := by
+  rw [edit_block_reading_is_scan, edit_block_reading_is_scan]
+  have hl : ((scanBlock dn buf).buf ++ more).length = (buf ++ more).length := by
+    simp [(edit_prefix_local dn buf).1]
+  rw [hl]
+  exact rescan_partial dn _ buf more _ (Nat.le_refl _) (Nat.le_refl _) h
+
+/-- **… and for every segmentation into any number of reads**: the retry scheme WITH the edits
+(`retryScanE`: scan; on need-more append the next segment to the edited buffer and scan again) reads what one scan
+of the concatenation reads, provided no stage compacted prematurely (`retryClean`). -/
+theorem rescan_after_edit_eq_whole_segments (dn : Bool) : ∀ (segs : List Bytes) (buf : Bytes),
+    retryClean dn buf segs = true →
+    (retryScanE dn buf segs).reading = (scanBlock dn (buf ++ segs.flatten)).reading
+  | [], buf, _ => by simp [retryScanE]
+  | seg :: segs, buf, h => by
+    simp only [retryScanE, retryClean] at h ⊢
+    cases hstop : (scanBlock dn buf).stop with
+    | needMore =>
+      simp only [hstop, Bool.and_eq_true, Bool.not_eq_true'] at h ⊢
+      rw [rescan_after_edit_eq_whole_segments dn segs _ h.2, List.append_assoc,
+        rescan_after_edit_eq_whole_partial dn buf _ h.1]
+      simp
+    | fin n =>
+      simp only [hstop]
+      rw [edit_block_reading_is_scan, edit_block_reading_is_scan]
+      have hs : (readBlock dn (buf.length + 1) buf).2 ≠ .needMore := by
+        rw [← edit_block_reading_is_scan]; simp [Block.reading, hstop]
+      exact (readBlock_stable dn _ _ _ buf (by simp) hs).symm
+    | invalidName =>
+      simp only [hstop]
+      rw [edit_block_reading_is_scan, edit_block_reading_is_scan]
+      have hs : (readBlock dn (buf.length + 1) buf).2 ≠ .needMore := by
+        rw [← edit_block_reading_is_scan]; simp [Block.reading, hstop]
+      exact (readBlock_stable dn _ _ _ buf (by simp) hs).symm
+
+set_option maxRecDepth 100000 in
+/-- non-vacuity: `x-a: 1\r\nX-No` ‖ `te: first\r\n second\r\n` ‖ `\tthird\r\n\r\nabcdefgh` would compact prematurely at
+the second stage; `x-a: 1\r\nX-No` ‖ the rest does not: the first scan hands out `X-A` (key rewritten in the buffer) and
+asks for more, the rescan of the edited buffer plus the rest reads both fields -/
+example : retryClean false ([120,45,97,58,32,49,13,10] ++ exNoteA.take 4) [exNoteA.drop 4 ++ exNoteB] = true ∧
+    (scanBlock false ([120,45,97,58,32,49,13,10] ++ exNoteA.take 4)).stop = .needMore ∧
+    (scanBlock false ([120,45,97,58,32,49,13,10] ++ exNoteA.take 4)).buf ≠ [120,45,97,58,32,49,13,10] ++ exNoteA.take 4 ∧
+    (retryScanE false ([120,45,97,58,32,49,13,10] ++ exNoteA.take 4) [exNoteA.drop 4 ++ exNoteB]).fields =
+      [([88,45,65], [49]),
+       ([88,45,78,111,116,101], [102,105,114,115,116,32,115,101,99,111,110,100,32,116,104,105,114,100])] := by
+  decide +kernel
+
+set_option maxRecDepth 100000 in
+/-- the hypothesis excludes something: the witness of `rescan_after_edit_eq_whole_fails_at` -/
+example : retryClean false exDryA [exDryB] = false := by decide +kernel
+
+/-! ### the header objects of the callers
+
+`resp.parseHeaders` and `ext.parseTrailer` run `Next` in a loop and fold the fields into the header object; both loops
+are functions of the block reading (`headersLoop_eq_fold`, `parseTrailerLoop_eq_fold`), so what holds for readings holds
+for the objects. -/
+
+/-- client, response head: the header object parsed from the EDITED header block is the one parsed from the original -/
+theorem resp_headers_edit_preserved (dn : Bool) (hd : RespRead.RespHead) (B : Bytes) :
+    RespRead.parseHeaders dn hd (editBlock dn B) = RespRead.parseHeaders dn hd B := by
+  have hl : (editBlock dn B).length = B.length := (edit_prefix_local dn B).1
+  have hr : readBlock dn (B.length + 1) (editBlock dn B) = readBlock dn (B.length + 1) B := by
+    have := (edit_preserves_reading dn B).1
+    rw [edit_block_reading_is_scan, edit_block_reading_is_scan, hl] at this
+    exact this
+  unfold RespRead.parseHeaders
+  rw [hl, headersLoop_eq_fold, headersLoop_eq_fold, hr]
+
+/-- client, response head, **rescan after edit with more bytes**: the header object parsed from the edited block
+followed by the bytes read since is the one parsed from the whole — unless a value was compacted before it was complete -/
+theorem resp_headers_rescan_partial (dn : Bool) (hd : RespRead.RespHead) (B more : Bytes)
+    (h : anyDryFold dn (B.length + 1) B = false) :
+    RespRead.parseHeaders dn hd (editBlock dn B ++ more) = RespRead.parseHeaders dn hd (B ++ more) := by
+  have hl : (editBlock dn B ++ more).length = (B ++ more).length := by simp [(edit_prefix_local dn B).1, editBlock]
+  unfold RespRead.parseHeaders
+  rw [hl, headersLoop_eq_fold, headersLoop_eq_fold]
+  unfold editBlock scanBlock
+  rw [rescan_partial dn _ B more _ (Nat.le_refl _) (Nat.le_refl _) h]
+
+/-- trailer section (client and server side; `parseTrailerLoop` is the loop of `ext.parseTrailer`), same two statements -/
+theorem trailer_edit_preserved (dn : Bool) (tr : List (Bytes × Option Bytes)) (err : Bool) (hl : Nat) (B : Bytes) :
+    parseTrailerLoop dn (B.length + 1) (editBlock dn B) tr err hl = parseTrailerLoop dn (B.length + 1) B tr err hl := by
+  have hlen : (editBlock dn B).length = B.length := (edit_prefix_local dn B).1
+  have hr : readBlock dn (B.length + 1) (editBlock dn B) = readBlock dn (B.length + 1) B := by
+    have := (edit_preserves_reading dn B).1
+    rw [edit_block_reading_is_scan, edit_block_reading_is_scan, hlen] at this
+    exact this
+  rw [parseTrailerLoop_eq_fold, parseTrailerLoop_eq_fold, hr]
+
+theorem trailer_rescan_partial (dn : Bool) (tr : List (Bytes × Option Bytes)) (err : Bool) (hl : Nat) (B more : Bytes)
+    (h : anyDryFold dn (B.length + 1) B = false) :
+    parseTrailerLoop dn ((B ++ more).length + 1) (editBlock dn B ++ more) tr err hl =
+      parseTrailerLoop dn ((B ++ more).length + 1) (B ++ more) tr err hl := by
+  rw [parseTrailerLoop_eq_fold, parseTrailerLoop_eq_fold]
+  unfold editBlock scanBlock
+  rw [rescan_partial dn _ B more _ (Nat.le_refl _) (Nat.le_refl _) h]
+
+set_option maxRecDepth 100000 in
+/-- non-vacuity: `x-a: 1\r\nX-No` ‖ `te: first\r\n second\r\n\tthird\r\n\r\n…` as a response header block -/
+example : anyDryFold false 13 ([120,45,97,58,32,49,13,10] ++ exNoteA.take 4) = false ∧
+    (match RespRead.parseHeaders false { status := 200 }
+        (editBlock false ([120,45,97,58,32,49,13,10] ++ exNoteA.take 4) ++ (exNoteA.drop 4 ++ exNoteB)) with
+     | .ok (hd, n) => hd.h.length == 3 && n == 42
+     | .error _ => false) = true := by decide +kernel
+
+/-- the answer of `resp.parse` with the buffer is the answer of the pure `parseRespHead` -/
+theorem resp_parse_edit_answer (dn : Bool) (buf : Bytes) : (respParseE dn buf).1 = RespRead.parseRespHead dn buf := by
+  unfold respParseE
+  cases hfl : RespRead.parseFirstLine buf with
+  | error e => simp [RespRead.parseRespHead, hfl, bind, Except.bind]
+  | ok p => rfl
+
+/-- **Client, whole response head (`resp.parse`), rescan after edit.**  `resp.tryRead` parses the peeked buffer; on
+need-more the SAME buffer — first line untouched, header block edited — followed by the bytes read since is parsed
+again.  That second parse answers what one parse of the concatenation answers (status line, every header field,
+framing, consumed length, or the error), for every buffer and every continuation, provided the first scan did not
+compact a value before it was complete. -/
+theorem resp_head_rescan_partial (dn : Bool) (buf more : Bytes)
+    (h : ∀ hd0 m, RespRead.parseFirstLine buf = .ok (hd0, m) →
+      anyDryFold dn ((buf.drop m).length + 1) (buf.drop m) = false) :
+    RespRead.parseRespHead dn ((respParseE dn buf).2 ++ more) = RespRead.parseRespHead dn (buf ++ more) := by
+  unfold respParseE
+  cases hfl : RespRead.parseFirstLine buf with
+  | error e => rfl
+  | ok p =>
+    obtain ⟨hd0, m⟩ := p
+    simp only []
+    have hm : m ≤ buf.length := RespRead.parseFirstLine_le buf hd0 m hfl
+    have hel : (editBlock dn (buf.drop m)).length = (buf.drop m).length := (edit_prefix_local dn _).1
+    have h1 := respFirstLine_local buf (editBlock dn (buf.drop m) ++ more) hd0 m hfl
+      (by simp [hel]; omega)
+    have h2 := RespRead.parseFirstLine_append buf more _ hfl (by simp)
+    have hd1 : (buf.take m ++ (editBlock dn (buf.drop m) ++ more)).drop m = editBlock dn (buf.drop m) ++ more :=
+      List.drop_left' (by simp; omega)
+    have hd2 : (buf ++ more).drop m = buf.drop m ++ more := List.drop_append_of_le_length hm
+    unfold RespRead.parseRespHead
+    rw [List.append_assoc, h1, h2]
+    simp only [bind, Except.bind, hd1, hd2]
+    rw [resp_headers_rescan_partial dn hd0 (buf.drop m) more (h hd0 m hfl)]
+
+set_option maxRecDepth 100000 in
+/-- non-vacuity: `HTTP/1.1 200 OK\r\nx-a: 1\r\nX-No` ‖ `te: first\r\n second\r\n\tthird\r\n\r\n…`: need-more with the key
+`x-a` rewritten in the buffer, then the whole head -/
+example :
+    let buf : Bytes := [72,84,84,80,47,49,46,49,32,50,48,48,32,79,75,13,10] ++ [120,45,97,58,32,49,13,10] ++ exNoteA.take 4
+    (respParseE false buf).1 = .error .needMore ∧ (respParseE false buf).2 ≠ buf ∧
+    (match RespRead.parseRespHead false ((respParseE false buf).2 ++ (exNoteA.drop 4 ++ exNoteB)) with
+     | .ok (hd, n) => hd.status == 200 && hd.h.length == 3 && n == 59
+     | .error _ => false) = true := by decide +kernel
+
+/-- **`resp.ReadHeader` over any number of reads, WITH the edits** — the counterpart of
+`client_read_segmentation_invariant` for the real buffer: the retry loop that parses the edited buffer plus each new
+read answers what one parse of the concatenation answers, provided no stage compacted a value before it was complete. -/
+theorem client_read_with_edits_segmentation_invariant (dn : Bool) : ∀ (segs : List Bytes) (buf : Bytes),
+    respRetryClean dn buf segs = true →
+    respRetryE dn buf segs = RespRead.parseRespHead dn (buf ++ segs.flatten)
+  | [], buf, _ => by simp [respRetryE, resp_parse_edit_answer]
+  | seg :: segs, buf, h => by
+    simp only [respRetryE, respRetryClean] at h ⊢
+    have ha := resp_parse_edit_answer dn buf
+    cases hr : (respParseE dn buf).1 with
+    | error e =>
+      cases e with
+      | needMore =>
+        simp only [hr, Bool.and_eq_true] at h ⊢
+        rw [client_read_with_edits_segmentation_invariant dn segs _ h.2, List.append_assoc]
+        have hc : ∀ hd0 m, RespRead.parseFirstLine buf = .ok (hd0, m) →
+            anyDryFold dn ((buf.drop m).length + 1) (buf.drop m) = false := by
+          intro hd0 m hfl
+          have := h.1
+          simp only [respStageClean, hfl, Bool.not_eq_true'] at this
+          exact this
+        rw [resp_head_rescan_partial dn buf _ hc]
+        simp
+      | bad =>
+        simp only [hr]
+        rw [ha] at hr
+        exact (RespRead.parseRespHead_append dn buf _ _ hr (by simp)).symm
+    | ok p =>
+      simp only [hr]
+      rw [ha] at hr
+      exact (RespRead.parseRespHead_append dn buf _ _ hr (by simp)).symm
+
+set_option maxRecDepth 100000 in
+/-- non-vacuity: three reads; the first ends inside the name `X-Note` (the key `x-a` in front of it is rewritten in
+the buffer, need-more), the second inside the first line of `X-Note` (need-more again), the third brings the rest -/
+example :
+    let buf : Bytes := [72,84,84,80,47,49,46,49,32,50,48,48,32,79,75,13,10] ++ [120,45,97,58,32,49,13,10] ++ exNoteA.take 4
+    respRetryClean false buf [(exNoteA.drop 4).take 5, exNoteA.drop 9 ++ exNoteB] = true ∧
+    (match respRetryE false buf [(exNoteA.drop 4).take 5, exNoteA.drop 9 ++ exNoteB] with
+     | .ok (hd, n) => hd.status == 200 && hd.h.length == 3 && n == 59
+     | .error _ => false) = true := by decide +kernel
+
+/-- **`ext.parseTrailer` on the whole peeked buffer (client and server side), rescan after edit.**  With the optional
+repeated `0\r\n` line in front, the two passes of one call, and the retry of `ext.ReadTrailer`: parsing the EDITED buffer
+followed by the bytes read since answers what one parse of the concatenation answers — the filled trailer values,
+the consumed length, or the error — provided the scan of the section did not compact a value before it was complete. -/
+theorem trailer_parse_rescan_partial (dn : Bool) (tr : List (Bytes × Option Bytes)) (buf more : Bytes)
+    (hc : anyDryFold dn ((trailerSection buf).length + 1) (trailerSection buf) = false) :
+    parseTrailer dn tr ((trailerParseE dn tr buf).2 ++ more) = parseTrailer dn tr (buf ++ more) :=
+  trailerParse_rescan dn tr buf more hc
+
+set_option maxRecDepth 100000 in
+/-- non-vacuity: `0\r\nx-a: 1\r\nX-No` ‖ `te: first\r\n second\r\n\tthird\r\n\r\n` with the trailer `X-A` announced -/
+example :
+    let buf : Bytes := [48,13,10] ++ [120,45,97,58,32,49,13,10] ++ exNoteA.take 4
+    anyDryFold false ((trailerSection buf).length + 1) (trailerSection buf) = false ∧
+    (match (trailerParseE false [([88,45,65], none)] buf).1 with | .error .needMore => true | _ => false) = true ∧
+    (trailerParseE false [([88,45,65], none)] buf).2 ≠ buf ∧
+    (match parseTrailer false [([88,45,65], none)]
+        ((trailerParseE false [([88,45,65], none)] buf).2 ++ (exNoteA.drop 4 ++ exNoteB.take 10)) with
+     | .ok (t, n) => t == [([88,45,65], some [49])] && n == 45
+     | .error _ => false) = true := by decide +kernel
+
+end X02
 
 end Hertz.Props.C02
